@@ -534,3 +534,66 @@ Example C12_burn_msg_nonvacuous :
   dsup s 0%nat = 600000 /\ dsup s 1%nat = 1000000 /\
   dshares s (liq lm_env) 1%nat = 1000000 * PREC /\ dshares s 0%nat 0%nat = 1400000 * PREC.
 Proof. vm_compute. repeat split; reflexivity. Qed.
+
+(** ** the savings SupportedDenoms parameter inside a history (Model/SavListing.v)
+    Governance can remove "bkava" from the x/savings SupportedDenoms at any time.  Deposits made
+    before stay in the store and stay withdrawable; new deposits (savings, and earn through its
+    savings strategy) are refused.  app/tally_handler.go addBkavaFromSavings reads the voter's
+    deposit with GetDeposit and does not consult the parameter: a derivative deposited while the
+    denom was listed keeps its vote after the de-listing. *)
+From Kava Require Import Model.SavListing Proofs.SavListing.
+
+(* whatever the parameter says, a tally is the tally of the state: votes, delegations and the
+   derivative units in wallet + savings + earn *)
+Theorem C12_tally_reads_savings_whatever_the_listing :
+  forall e s l votes,
+  sstep e s l (SMsg (MPlain (Tally votes))) =
+  match tally e s votes with Some t => Ok (s, l) (OTally t) | None => Panic end.
+Proof. exact sstep_tally_any_listing. Qed.
+Print Assumptions C12_tally_reads_savings_whatever_the_listing.
+
+(* a parameter change moves no holding, and the same votes give the same result right after it *)
+Theorem C12_delisting_keeps_tally :
+  forall e s l b votes sl,
+  sstep e s l (SSetListed b) = Ok sl ONone ->
+  class_of (sstep e (fst sl) (snd sl) (SMsg (MPlain (Tally votes)))) = class_of (sstep e s l (SMsg (MPlain (Tally votes)))) /\
+  forall s1 l1 s2 l2 x1 x2,
+    sstep e (fst sl) (snd sl) (SMsg (MPlain (Tally votes))) = Ok (s1, l1) x1 ->
+    sstep e s l (SMsg (MPlain (Tally votes))) = Ok (s2, l2) x2 -> x1 = x2 /\ s1 = s2.
+Proof. exact tally_same_after_set_listed. Qed.
+Print Assumptions C12_delisting_keeps_tally.
+
+(* while de-listed: deposits refused, withdrawals as before *)
+Theorem C12_delisted_deposit_refused :
+  forall e s p a i amt, sstep e s false (SMsg (MPlain (Stash p a i amt))) = Err.
+Proof. exact sstep_stash_delisted. Qed.
+Print Assumptions C12_delisted_deposit_refused.
+
+Theorem C12_withdrawal_whatever_the_listing :
+  forall e s l p a i amt,
+  sstep e s l (SMsg (MPlain (Unstash p a i amt))) =
+  match step e s (Unstash p a i amt) with Ok s' x => Ok (s', l) x | Err => Err | Panic => Panic end.
+Proof. exact sstep_unstash_any_listing. Qed.
+Print Assumptions C12_withdrawal_whatever_the_listing.
+
+(* invariant and backing for every history with parameter changes *)
+Theorem C12_backing_all_histories_with_listing :
+  forall e os sl, env_wf e -> Inv e (fst sl) -> backed_all e (fst sl) ->
+  Inv e (fst (srun e sl os)) /\ backed_all e (fst (srun e sl os)).
+Proof. intros e os sl Hwf HI HB. split; [now apply srun_inv|now apply srun_backed]. Qed.
+Print Assumptions C12_backing_all_histories_with_listing.
+
+(* non-vacuity: user 0 converts 900 000 000 shares, deposits the derivative in savings, the denom
+   is de-listed; user 0 (yes) and the validator's operator (no) vote: the holder keeps its
+   1 000 000 007 (the result of C12_tally_counts_bonded), the validator does not inherit the
+   derivative's power; a new deposit is refused, the old one is withdrawable *)
+Example C12_delisting_nonvacuous :
+  let sl := srun w_env (w_init, true)
+              [SMsg (MPlain (Mint 0%nat 0%nat 900000000)); SMsg (MPlain (Stash PSav 0%nat 0%nat 899999999));
+               SSetListed false] in
+  snd sl = false /\ sav (fst sl) 0%nat 0%nat = 899999999 /\ dbal (fst sl) 0%nat 0%nat = 1 /\
+  (exists t, sstep w_env (fst sl) (snd sl) (SMsg (MPlain (Tally [(0%nat, [(0%nat, PREC)]); (2%nat, [(2%nat, PREC)])])))
+             = Ok sl (OTally t) /\ r_yes t = 1000000007 /\ r_no t = 1000000000) /\
+  sstep w_env (fst sl) (snd sl) (SMsg (MPlain (Stash PSav 0%nat 0%nat 1))) = Err /\
+  class_of (sstep w_env (fst sl) (snd sl) (SMsg (MPlain (Unstash PSav 0%nat 0%nat 899999999)))) = ROk.
+Proof. vm_compute. repeat split; try reflexivity. eexists. repeat split; reflexivity. Qed.
